@@ -97,6 +97,7 @@ func runC06(ctx *Ctx, p *c06Prog) {
 	readerPanic := make([]string, nOut)
 	var group simrt.WaitGroup
 	waitReturned := false
+	liveAtWait := 0
 	feederDone := false
 	mainPanic := ""
 	res := ctx.Sim(nil, func() {
@@ -160,6 +161,7 @@ func runC06(ctx *Ctx, p *c06Prog) {
 		}
 		group.Wait()
 		waitReturned = true
+		liveAtWait = simrt.LiveAdopted()
 	})
 	ctx.Res.NonTrivial = res.Switches >= 3
 	topo := p.Topology
@@ -200,6 +202,9 @@ func runC06(ctx *Ctx, p *c06Prog) {
 	}
 	if !waitReturned || !feederDone {
 		ctx.Violate("C06", "no-termination", topo+":wait", desc+": run ended but Wait()/feeder did not complete")
+	}
+	if liveAtWait > 0 {
+		ctx.Violate("C06", "wait-returned-early", topo, fmt.Sprintf("%s: the caller's Wait() returned while %d library helper goroutine(s) were still running: the wait group does not cover the helpers", desc, liveAtWait))
 	}
 	if group.Count() != 0 {
 		ctx.Violate("C06", "waitgroup-nonzero", topo, fmt.Sprintf("%s: wait group counter is %d after termination", desc, group.Count()))
